@@ -841,3 +841,118 @@ Proof.
     + exfalso. apply andb_prop in Dt. destruct Dt as [Dt _]. apply andb_prop in Dt. destruct Dt as [Dt _].
       unfold shared in Dt. apply Nat.leb_le in Dt. lia.
 Qed.
+
+(* ------------------------------------------------------------------ mpt_vprintf("%s") *)
+Lemma vsn_fits len text : length text < len -> vsn len text = text ++ [0%N].
+Proof.
+  intros H. unfold vsn. rewrite (proj2 (Nat.eqb_neq len 0)) by lia.
+  rewrite firstn_all2 by lia. reflexivity.
+Qed.
+
+Lemma vsn_length len text : length (vsn len text) <= len.
+Proof.
+  unfold vsn. destruct (Nat.eqb_spec len 0); [simpl; lia|].
+  rewrite app_length, firstn_length. simpl. lia.
+Qed.
+
+Lemma prefix_view b n : buf_wf b -> n <= bused b -> firstn n (bdata b) = firstn n (bview b).
+Proof. intros [L [U A]] H. unfold bview. rewrite firstn_firstn, Nat.min_l by lia. reflexivity. Qed.
+
+Lemma firstn_ext l t n : n <= length l -> firstn n (ext l t) = firstn n l.
+Proof. intros H. unfold ext. rewrite firstn_app. replace (n - length l) with 0 by lia. simpl. apply app_nil_r. Qed.
+
+Lemma round_gt rval : rval < (rval / 64 + 1) * 64.
+Proof.
+  pose proof (Nat.div_mod rval 64 ltac:(lia)). pose proof (Nat.mod_upper_bound rval 64 ltac:(lia)). lia.
+Qed.
+
+(* storing text and terminator at [used] and ending the data behind the text *)
+Lemma print_store b used len text : buf_wf b -> btr b = 1 -> used + len <= bsize b -> length text < len ->
+  match wr (bdata b) used (text ++ [0%N]) with
+  | Ok m => buf_wf (set_used (set_data b m) (used + length text)) /\
+            bview (set_used (set_data b m) (used + length text)) = firstn used (bdata b) ++ text
+  | _ => False
+  end.
+Proof.
+  intros [L [U A]] T S H. rewrite wr_sem by (rewrite app_length; simpl; lia). split.
+  - unfold buf_wf; bsimp. split; [len_simp; simpl; lia|]. split; [lia|]. intros _. rewrite T. apply Nat.mod_1_r.
+  - unfold bview; bsimp. rewrite app_length. simpl length.
+    list_eq_k ltac:(fun i => split_at i used).
+Qed.
+
+Lemma printf_at_sem hp a hp2 k b' used len text :
+  ptrans hp a hp2 (Some k) -> hget hp2 k = Some b' -> buf_wf b' -> bref b' = 1 -> bimm b' = false ->
+  btr b' = 1 -> bused b' = used + len -> used + len <= bsize b' ->
+  ares_ok hp a (printf_at hp2 k used len text)
+    (Dn (Some (1, firstn used (bdata b') ++ text)) (length text)) true.
+Proof.
+  intros T E2 W' R' I' Tr U' S'. unfold printf_at, store. rewrite E2.
+  pose proof W' as [L [U A]]. pose proof (vsn_length len text) as VL.
+  rewrite wr_sem by lia. cbn [bind].
+  set (m := firstn used (bdata b') ++ vsn len text ++ skipn (used + length (vsn len text)) (bdata b')).
+  assert (Lm : length m = bsize b') by (subst m; len_simp; lia).
+  set (b2 := set_data b' m).
+  assert (W2 : buf_wf b2).
+  { subst b2. unfold buf_wf; bsimp. split; [exact Lm|]. split; [lia|exact A]. }
+  assert (E2' : hget (hset hp2 k b2) k = Some b2).
+  { rewrite hget_hset, Nat.eqb_refl, (proj2 (Nat.ltb_lt _ _) (hget_lt _ _ _ E2)). reflexivity. }
+  destruct ((length text =? 0) || (length text <? len)) eqn:Fit.
+  - (* the text and its terminator fit *)
+    rewrite E2', hset_hset. cbn [ares_ok].
+    assert (Hlen : (length text = 0 /\ len = 0) \/ length text < len).
+    { apply orb_prop in Fit. destruct Fit as [F|F].
+      - apply Nat.eqb_eq in F. destruct (Nat.eq_dec len 0); [left; auto|right; lia].
+      - apply Nat.ltb_lt in F. right; exact F. }
+    set (b3 := set_used b2 (used + length text)).
+    assert (W3 : buf_wf b3 /\ bview b3 = firstn used (bdata b') ++ text).
+    { destruct Hlen as [[Z1 Z2]|Hlt].
+      - destruct text; [|discriminate]. subst b3 b2 m. unfold vsn. rewrite Z2. cbn [Nat.eqb length app].
+        split.
+        + unfold buf_wf; bsimp. split; [len_simp; lia|]. split; [lia|]. intros _. rewrite Tr. apply Nat.mod_1_r.
+        + unfold bview; bsimp. rewrite app_nil_r. list_eq.
+      - pose proof (print_store b' used len text W' Tr S' Hlt) as P.
+        rewrite wr_sem in P by (rewrite app_length; simpl; lia).
+        subst b3 b2 m. rewrite (vsn_fits len text Hlt). exact P. }
+    destruct W3 as [W3 V3].
+    destruct (inplace_done hp a hp2 k b' b3 T E2 R' ltac:(subst b3 b2; bsimp; lia) W3) as [T3 AV3].
+    split; [exact T3|]. rewrite AV3. unfold Dn, bval. rewrite V3. subst b3 b2. bsimp. rewrite Tr. reflexivity.
+  - (* second attempt with more room *)
+    apply orb_false_elim in Fit. destruct Fit as [F1 F2]. apply Nat.eqb_neq in F1. apply Nat.ltb_ge in F2.
+    set (len2 := (length text / 64 + 1) * 64).
+    assert (G2 : length text < len2) by apply round_gt.
+    assert (OK2 : aok (hset hp2 k b2) (Some k)).
+    { intros i Hi. inversion Hi; subst i. exists b2. split; [exact E2'|]. split; [exact W2|]. subst b2; bsimp; lia. }
+    pose proof (array_slice_sem (hset hp2 k b2) (Some k) used len2 0 false OK2) as S.
+    unfold slice_refuse, sliced, tl_of in S.
+    assert (AV2 : aval (hset hp2 k b2) (Some k) = Some (1, bview b2)).
+    { unfold aval. rewrite E2'. cbn [option_map]. unfold bval. subst b2; bsimp. rewrite Tr. reflexivity. }
+    rewrite AV2 in S. cbn [fst snd] in S. rewrite al3_one in S. cbn [negb andb orb Nat.eqb] in S.
+    assert (NB : blocked (hint_at (hset hp2 k b2) (Some k) 0 false) (bview b2) = false).
+    { unfold blocked, hint_at. rewrite E2'. cbn [hsh]. unfold shared. subst b2; bsimp.
+      rewrite R'. reflexivity. }
+    rewrite NB in S.
+    destruct (array_slice (hset hp2 k b2) (Some k) used len2) as [hp3 a3 n|hp3 a3|];
+      [|destruct S as [S _]; discriminate|contradiction].
+    destruct S as [_ [k' [b'' [-> [E3 [T3 [R3 [I3 [W3 [S3 [Tr3 V3]]]]]]]]]]].
+    rewrite E3. pose proof W3 as [L3 [U3 A3]].
+    rewrite (vsn_fits len2 text G2).
+    assert (B3 : bused b'' = used + len2).
+    { rewrite <- (bview_length _ W3), V3, ext_length, (bview_length _ W2). subst b2; bsimp. lia. }
+    pose proof (print_store b'' used len2 text W3 Tr3 S3 G2) as P.
+    destruct (wr (bdata b'') used (text ++ [0%N])) as [m4| |]; try contradiction.
+    destruct P as [W5 V5]. cbn [bind].
+    rewrite hget_hset, Nat.eqb_refl, (proj2 (Nat.ltb_lt _ _) (hget_lt _ _ _ E3)). cbn [andb].
+    rewrite hset_hset. cbn [ares_ok].
+    assert (T2 : ptrans hp a (hset hp2 k b2) (Some k)).
+    { eapply ptrans_trans; [exact T|]. eapply P_inplace; eauto; subst b2; bsimp; lia. }
+    destruct (inplace_done hp a hp3 k' b'' (set_used (set_data b'' m4) (used + length text))
+                (ptrans_trans _ _ _ _ _ _ T2 T3) E3 R3 ltac:(bsimp; lia) W5) as [T5 AV5].
+    split; [exact T5|]. rewrite AV5. unfold Dn, bval. rewrite V5. bsimp. rewrite Tr3.
+    repeat f_equal.
+    (* the bytes in front of the text are still those of the first buffer *)
+    rewrite (prefix_view b'' used W3) by lia. rewrite V3.
+    rewrite firstn_ext by (rewrite (bview_length _ W2); subst b2; bsimp; lia).
+    rewrite <- (prefix_view b2 used W2) by (subst b2; bsimp; lia).
+    subst b2 m. bsimp. rewrite firstn_app, firstn_firstn, Nat.min_id, firstn_length, L.
+    replace (used - Nat.min used (bsize b')) with 0 by lia. simpl. apply app_nil_r.
+Qed.
